@@ -1129,6 +1129,23 @@ impl Scenario for Ids {
 // -----------------------------------------------------------------------------------------
 // C01 (E2 part)
 
+/// One writer of the `wire` scenario: three publishes, a nowait bind, a qos, close.
+fn spawn_writer(ctx: &Ctx, chan: u16, ch: Channel) -> usize {
+    ctx.spawn(&format!("w{}", chan), move |ctx| {
+        for i in 0..3u8 {
+            let body = vec![chan as u8 * 16 + i; (i as usize + 1) * 2];
+            let r = ch.basic_publish("ex", Publish::new(&body, format!("k{}", i)));
+            ctx.log(format!("publish{} -> {}", i, res(&r)));
+        }
+        let r = ch.queue_bind_nowait("q", "ex", "k", FieldTable::new());
+        ctx.log(format!("bind -> {}", res(&r)));
+        let r = ch.qos(0, chan, false);
+        ctx.log(format!("qos -> {}", res(&r)));
+        let r = ch.close();
+        ctx.log(format!("chclose -> {}", res(&r)));
+    })
+}
+
 pub struct Wire;
 
 impl Scenario for Wire {
@@ -1162,6 +1179,12 @@ impl Scenario for Wire {
             v.push(json!({"stall": null, "bound": 16, "menu": 2, "server_close": true, "exception": k}));
         }
         v.push(json!({"stall": 400, "bound": 16, "menu": 2, "server_close": true, "exception": 0}));
+        // heartbeats on (1 s) and a transport that stalls for one and a half intervals with a
+        // backlog that ends in the middle of a frame: whatever the client does about its
+        // heartbeat meanwhile, the stream stays whole frames
+        for stall in [400usize, 411, 422, 433] {
+            v.push(json!({"stall": stall, "bound": 16, "menu": 2, "hb_stall": true}));
+        }
         v
     }
     fn bound(&self, tier: &str, p: &Value) -> usize {
@@ -1194,12 +1217,18 @@ impl Scenario for Wire {
         if let Some(n) = p["stall"].as_u64() {
             cfg.stall_after = Some(n as usize);
         }
+        let hb_stall = p["hb_stall"] == true;
+        if hb_stall {
+            // nobody but the session itself lets the transport take bytes again
+            cfg.no_grants = true;
+            cfg.write_cuts = false;
+        }
         let bound = p["bound"].as_u64().unwrap() as usize;
         Built {
             broker: Box::new(broker),
             cfg,
             root: Box::new(move |ctx: Ctx| {
-                let mut conn = match open(&ctx, ConnectionOptions::default().heartbeat(0), ConnectionTuning::default().mem_channel_bound(bound)) {
+                let mut conn = match open(&ctx, ConnectionOptions::default().heartbeat(if hb_stall { 1 } else { 0 }), ConnectionTuning::default().mem_channel_bound(bound)) {
                     Ok(c) => c,
                     Err(e) => {
                         ctx.log(format!("open -> Err({})", err_name(&e)));
@@ -1207,27 +1236,27 @@ impl Scenario for Wire {
                     }
                 };
                 let mut actors = Vec::new();
+                let mut opened = Vec::new();
                 for chan in 1..=2u16 {
-                    let ch = match conn.open_channel(Some(chan)) {
-                        Ok(c) => c,
-                        Err(e) => {
-                            ctx.log(format!("open_channel{} -> Err({})", chan, err_name(&e)));
-                            continue;
+                    match conn.open_channel(Some(chan)) {
+                        Ok(c) => opened.push((chan, c)),
+                        Err(e) => ctx.log(format!("open_channel{} -> Err({})", chan, err_name(&e))),
+                    }
+                    if !hb_stall {
+                        // (the writers start as soon as their channel exists, except where both
+                        // must exist before the transport stalls)
+                        for (chan, ch) in opened.drain(..) {
+                            actors.push(spawn_writer(&ctx, chan, ch));
                         }
-                    };
-                    actors.push(ctx.spawn(&format!("w{}", chan), move |ctx| {
-                        for i in 0..3u8 {
-                            let body = vec![chan as u8 * 16 + i; (i as usize + 1) * 2];
-                            let r = ch.basic_publish("ex", Publish::new(&body, format!("k{}", i)));
-                            ctx.log(format!("publish{} -> {}", i, res(&r)));
-                        }
-                        let r = ch.queue_bind_nowait("q", "ex", "k", FieldTable::new());
-                        ctx.log(format!("bind -> {}", res(&r)));
-                        let r = ch.qos(0, chan, false);
-                        ctx.log(format!("qos -> {}", res(&r)));
-                        let r = ch.close();
-                        ctx.log(format!("chclose -> {}", res(&r)));
-                    }));
+                    }
+                }
+                for (chan, ch) in opened.drain(..) {
+                    actors.push(spawn_writer(&ctx, chan, ch));
+                }
+                if hb_stall {
+                    // (virtual time passes once everybody is blocked behind the stalled transport)
+                    ctx.sleep_ms(1500);
+                    ctx.force_grant();
                 }
                 for a in actors {
                     ctx.join(a);
@@ -1243,6 +1272,8 @@ impl Scenario for Wire {
         if rest != 0 {
             v.push(("wire:partial-frame".into(), format!("{} trailing bytes", rest)));
         }
+        // (heartbeat frames, where heartbeats are on, are not part of any program)
+        let envs: Vec<_> = envs.into_iter().filter(|e| !(p["hb_stall"] == true && e.ty == 8 && e.chan == 0)).collect();
         let exception = !p["exception"].is_null();
         let server_closed = p["server_close"] == true
             && o.io_events.iter().any(|e| match e {
